@@ -1,7 +1,7 @@
 #!/bin/bash
 # tlc.sh <module.tla> <cfg> <metadir> [extra tlc args]  -- run TLC with the project's JVM options
 # and module path (spec/, spec/alg, spec/trace ...). Always under an outer timeout (TLC_TIMEOUT s).
-V=/verif
+V=$(cd "$(dirname "$0")/.." && pwd)
 mod=$1; cfg=$2; meta=$3; shift 3
 mkdir -p "$meta"
 export JAVA_TOOL_OPTIONS="${JAVA_TOOL_OPTIONS:--Xss512m -Xmx${TLC_XMX:-3g} -XX:+UseParallelGC}"
